@@ -8,6 +8,6 @@ JOBS = [
  _j("c04_literal.confirm", "h_kf_c04_literal", ["C04"], "confirmation: literal with white space around the exponent is converted as a prefix", "same", defines=["CONFIRM"], known_finding="C04-ws-exponent"),
  _j("c05_reader", "h_kf_c05_reader", ["C05"], "integer reader: failure only with an error queued; literals starting with '.' excluded", "parameter texts <= 4 bytes over {1 . - A blank ,}"),
  _j("c05_reader.confirm", "h_kf_c05_reader", ["C05"], "confirmation: '.5' given to an integer reader fails with nothing queued", "same", defines=["CONFIRM"], known_finding="C05-int-reader-dot"),
- _j("c05_block_flush.confirm", "h_kf_c05_block_flush", ["C05"], "confirmation: incomplete block at a flush runs the handler with no error", "one fixed stream", known_finding="C05-incomplete-block-flush"),
+ _j("c05_block_flush", "h_kf_c05_block_flush", ["C05"], "an incomplete block at a flush queues a command error and reaches no handler (was a known finding until fix 290ad02)", "one fixed stream"),
  _j("c08_quoted_newline.confirm", "h_kf_c08_quoted_newline", ["C08"], "confirmation: newline inside a quoted string is cut differently per chunking", "one fixed stream, split right after the embedded newline", known_finding="C08-quoted-newline"),
 ]
